@@ -512,7 +512,10 @@ func flowCase(m *mon.M, i int64, r *rand.Rand) {
 				}
 			}
 		})
-		wait("hang:write-parked-while-peer-keeps-adjusting", writersDone)
+		if wait("hang:write-parked-while-peer-keeps-adjusting", writersDone) {
+			// the pong travels behind every data packet: afterwards the peer's books are complete
+			wait("hang:barrier", peer.barrier())
+		}
 	}
 
 	// --- judge the writes
